@@ -283,3 +283,299 @@ func init() {
 }
 
 var _ = cfg.KindBody
+
+// blocksWith returns the live blocks containing a node accepted by pred.
+func (f *FCFG) blocksWith(pred func(n ast.Node) bool) map[*cfg.Block]bool {
+	out := map[*cfg.Block]bool{}
+	for _, b := range f.G.Blocks {
+		if !f.Live(b) {
+			continue
+		}
+		for _, n := range b.Nodes {
+			if pred(n) {
+				out[b] = true
+			}
+		}
+	}
+	return out
+}
+
+// exitReachableAvoiding: can control leave the function (reach a block without
+// successors) from the entry without entering a block in `through` and without
+// using an edge in cut?
+func (f *FCFG) exitReachableAvoiding(through map[*cfg.Block]bool, cut []cfgEdge) bool {
+	if len(f.G.Blocks) == 0 {
+		return true
+	}
+	isCut := func(b *cfg.Block, k int) bool {
+		for _, e := range cut {
+			if e.B == b && e.K == k {
+				return true
+			}
+		}
+		return false
+	}
+	seen := map[*cfg.Block]bool{}
+	var dfs func(b *cfg.Block) bool
+	dfs = func(b *cfg.Block) bool {
+		if through[b] {
+			return false
+		}
+		seen[b] = true
+		if len(b.Succs) == 0 {
+			return true
+		}
+		for k, s := range b.Succs {
+			if isCut(b, k) {
+				continue
+			}
+			if !seen[s] && dfs(s) {
+				return true
+			}
+		}
+		return false
+	}
+	return dfs(f.G.Blocks[0])
+}
+
+func init() {
+	register(&Rule{ID: "COND.stack-shape", Floor: 2,
+		Doc: "PushCondition appends its argument to the condition stack on every path; PopCondition shrinks the stack on every path except the one where it is empty (push and deferred pop stay balanced for nested handlers)",
+		Run: func(c *Ctx) []Obligation {
+			fld := c.LookupField("lisp.Runtime.conditionStack")
+			if fld == nil {
+				return []Obligation{anchorMissing("COND.stack-shape", "Runtime.conditionStack")}
+			}
+			var obs []Obligation
+			// push
+			if fn, fd, pkg := c.LookupFunc("lisp.(*Runtime).PushCondition"); fn != nil {
+				u := FuncUnit{fn, fd, pkg}
+				info := pkg.TypesInfo
+				fc := c.cfgOf(u, nil)
+				param := argsParam(info, u, nil)
+				if fd.Type.Params != nil && len(fd.Type.Params.List) == 1 && len(fd.Type.Params.List[0].Names) == 1 {
+					param = info.Defs[fd.Type.Params.List[0].Names[0]]
+				}
+				stores := fc.blocksWith(func(n ast.Node) bool {
+					as, ok := n.(*ast.AssignStmt)
+					if !ok || len(as.Lhs) != 1 || len(as.Rhs) != 1 || FieldOfSelector(info, as.Lhs[0]) != fld {
+						return false
+					}
+					ce, ok := ast.Unparen(as.Rhs[0]).(*ast.CallExpr)
+					if !ok || len(ce.Args) != 2 {
+						return false
+					}
+					id, ok := ast.Unparen(ce.Fun).(*ast.Ident)
+					return ok && id.Name == "append" && FieldOfSelector(info, ce.Args[0]) == fld && identObj(info, ce.Args[1]) == param
+				})
+				if len(stores) > 0 && !fc.exitReachableAvoiding(stores, nil) {
+					obs = append(obs, mkOb(c, "COND.stack-shape", u, "push on all paths", fd, Proved, "every path through PushCondition appends the argument", true))
+				} else {
+					obs = append(obs, mkOb(c, "COND.stack-shape", u, "push on all paths", fd, Violated, "a path through PushCondition does not push its argument, but opHandlerBind's deferred PopCondition always pops: an enclosing handler's condition is lost", true))
+				}
+			} else {
+				obs = append(obs, anchorMissing("COND.stack-shape", "PushCondition"))
+			}
+			// pop
+			if fn, fd, pkg := c.LookupFunc("lisp.(*Runtime).PopCondition"); fn != nil {
+				u := FuncUnit{fn, fd, pkg}
+				info := pkg.TypesInfo
+				fc := c.cfgOf(u, nil)
+				shrink := fc.blocksWith(func(n ast.Node) bool {
+					as, ok := n.(*ast.AssignStmt)
+					if !ok || len(as.Lhs) != 1 || len(as.Rhs) != 1 || FieldOfSelector(info, as.Lhs[0]) != fld {
+						return false
+					}
+					se, ok := ast.Unparen(as.Rhs[0]).(*ast.SliceExpr)
+					return ok && FieldOfSelector(info, se.X) == fld && se.High != nil
+				})
+				// len var
+				isLenStack := func(e ast.Expr) bool {
+					if ce, ok := ast.Unparen(e).(*ast.CallExpr); ok && len(ce.Args) == 1 {
+						if id, ok := ast.Unparen(ce.Fun).(*ast.Ident); ok && id.Name == "len" && FieldOfSelector(info, ce.Args[0]) == fld {
+							return true
+						}
+					}
+					if o := identObj(info, e); o != nil {
+						if dc, _, n := definingCall(info, fd.Body, o); dc != nil && n == 1 && len(dc.Args) == 1 {
+							if id, ok := ast.Unparen(dc.Fun).(*ast.Ident); ok && id.Name == "len" && FieldOfSelector(info, dc.Args[0]) == fld {
+								return true
+							}
+						}
+					}
+					return false
+				}
+				empty := fc.edgesImplying(func(a LitAtom) bool {
+					be, ok := ast.Unparen(a.E).(*ast.BinaryExpr)
+					if !ok {
+						return false
+					}
+					var k int
+					var okc bool
+					op := be.Op
+					if isLenStack(be.X) {
+						k, okc = intConst(info, be.Y)
+					} else if isLenStack(be.Y) {
+						k, okc = intConst(info, be.X)
+						switch op {
+						case token.LSS:
+							op = token.GTR
+						case token.GTR:
+							op = token.LSS
+						case token.LEQ:
+							op = token.GEQ
+						case token.GEQ:
+							op = token.LEQ
+						}
+					} else {
+						return false
+					}
+					if !okc {
+						return false
+					}
+					// atom (with polarity) means len == 0
+					switch {
+					case op == token.EQL && k == 0:
+						return a.Positive
+					case op == token.NEQ && k == 0:
+						return !a.Positive
+					case op == token.LSS && k == 1, op == token.LEQ && k == 0:
+						return a.Positive
+					case op == token.GTR && k == 0, op == token.GEQ && k == 1:
+						return !a.Positive
+					}
+					return false
+				})
+				if len(shrink) > 0 && !fc.exitReachableAvoiding(shrink, empty) {
+					obs = append(obs, mkOb(c, "COND.stack-shape", u, "pop on all non-empty paths", fd, Proved, "every path through PopCondition shrinks the stack unless it is empty", true))
+				} else {
+					obs = append(obs, mkOb(c, "COND.stack-shape", u, "pop on all non-empty paths", fd, Violated, "a path through PopCondition leaves a non-empty condition stack unchanged: a condition stays pending after its handler returns", true))
+				}
+			} else {
+				obs = append(obs, anchorMissing("COND.stack-shape", "PopCondition"))
+			}
+			return obs
+		}})
+
+	register(&Rule{ID: "PANICMARK.recover-wraps", Floor: 2,
+		Doc: "in eval's deferred recover handler every path on which recover() returned non-nil assigns the named result from ErrorConditionf(CondInternalPanic, ...) (no other assignment to the result exists there): a recovered host panic always becomes the internal-panic condition and is then marked",
+		Run: func(c *Ctx) []Obligation {
+			fn, fd, pkg := c.LookupFunc("lisp.(*LEnv).eval")
+			if fn == nil {
+				return []Obligation{anchorMissing("PANICMARK.recover-wraps", "eval")}
+			}
+			u := FuncUnit{fn, fd, pkg}
+			info := pkg.TypesInfo
+			condConst := c.Pkg("lisp").Types.Scope().Lookup("CondInternalPanic")
+			var lit *ast.FuncLit
+			ast.Inspect(fd.Body, func(n ast.Node) bool {
+				if d, ok := n.(*ast.DeferStmt); ok {
+					if l := deferredLit(d); l != nil {
+						for _, ce := range callsIn(l.Body, false) {
+							if id, isId := ast.Unparen(ce.Fun).(*ast.Ident); isId && id.Name == "recover" {
+								lit = l
+							}
+						}
+					}
+				}
+				return true
+			})
+			if lit == nil || condConst == nil {
+				return []Obligation{mkOb(c, "PANICMARK.recover-wraps", u, "recover handler", fd, Violated, "eval has no deferred function calling recover()", true)}
+			}
+			// named result
+			var resObj types.Object
+			if fd.Type.Results != nil && len(fd.Type.Results.List) == 1 && len(fd.Type.Results.List[0].Names) == 1 {
+				resObj = info.Defs[fd.Type.Results.List[0].Names[0]]
+			}
+			if resObj == nil {
+				return []Obligation{mkOb(c, "PANICMARK.recover-wraps", u, "named result", fd, Undecided, "eval has no named result", false)}
+			}
+			fc := c.cfgOf(u, lit)
+			// recovered variable
+			var recObj types.Object
+			ast.Inspect(lit.Body, func(n ast.Node) bool {
+				if as, ok := n.(*ast.AssignStmt); ok && len(as.Lhs) == 1 && len(as.Rhs) == 1 {
+					if ce, ok := ast.Unparen(as.Rhs[0]).(*ast.CallExpr); ok {
+						if id, isId := ast.Unparen(ce.Fun).(*ast.Ident); isId && id.Name == "recover" {
+							recObj = identObj(info, as.Lhs[0])
+						}
+					}
+				}
+				return true
+			})
+			if recObj == nil {
+				return []Obligation{mkOb(c, "PANICMARK.recover-wraps", u, "recover value", lit, Undecided, "recover() result not bound", false)}
+			}
+			var obs []Obligation
+			isWrap := func(n ast.Node) bool {
+				as, ok := n.(*ast.AssignStmt)
+				if !ok || len(as.Lhs) != 1 || len(as.Rhs) != 1 || identObj(info, as.Lhs[0]) != resObj {
+					return false
+				}
+				ce, ok := ast.Unparen(as.Rhs[0]).(*ast.CallExpr)
+				if !ok || len(ce.Args) < 1 {
+					return false
+				}
+				f := Callee(info, ce)
+				return f != nil && f.Name() == "ErrorConditionf" && identObj(info, ce.Args[0]) == condConst
+			}
+			// all assignments to result in the closure are wraps
+			other := 0
+			ast.Inspect(lit.Body, func(n ast.Node) bool {
+				if as, ok := n.(*ast.AssignStmt); ok {
+					for _, l := range as.Lhs {
+						if identObj(info, l) == resObj && !isWrap(as) {
+							other++
+						}
+					}
+				}
+				return true
+			})
+			wraps := fc.blocksWith(isWrap)
+			recEdges := fc.nilEdges(recObj, false)
+			okAll := len(recEdges) > 0 && len(wraps) > 0 && other == 0
+			for _, e := range recEdges {
+				// from the recovered edge, exit must not be reachable without a wrap
+				start := e.B.Succs[e.K]
+				seen := map[*cfg.Block]bool{}
+				var dfs func(b *cfg.Block) bool
+				dfs = func(b *cfg.Block) bool {
+					if wraps[b] {
+						// nodes before the wrap in this block may return? (returns end blocks, so no)
+						return false
+					}
+					seen[b] = true
+					if len(b.Succs) == 0 {
+						return true
+					}
+					for _, s := range b.Succs {
+						if !seen[s] && dfs(s) {
+							return true
+						}
+					}
+					return false
+				}
+				if dfs(start) {
+					okAll = false
+				}
+			}
+			if okAll {
+				obs = append(obs, mkOb(c, "PANICMARK.recover-wraps", u, "recovered => internal-panic", lit, Proved, "every path from `recover() != nil` to the end of the handler assigns result = ErrorConditionf(CondInternalPanic, ...)", true))
+			} else {
+				obs = append(obs, mkOb(c, "PANICMARK.recover-wraps", u, "recovered => internal-panic", lit, Violated, "a recovered host panic can leave eval as something other than the marked internal-panic condition (it would be swallowed by ignore-errors / matched by `condition`)", true))
+			}
+			// GoStack store: reachable on every path after the wrap except through nil checks of the stack
+			gs := c.LookupField("lisp.CallStack.GoStack")
+			gstores := fc.blocksWith(func(n ast.Node) bool {
+				as, ok := n.(*ast.AssignStmt)
+				return ok && len(as.Lhs) == 1 && FieldOfSelector(info, as.Lhs[0]) == gs
+			})
+			if len(gstores) > 0 {
+				obs = append(obs, mkOb(c, "PANICMARK.recover-wraps", u, "marker stored", lit, Proved, "the handler stores GoStack on the wrapped error's stack", false))
+			} else {
+				obs = append(obs, mkOb(c, "PANICMARK.recover-wraps", u, "marker stored", lit, Violated, "the recover handler does not store the GoStack marker", true))
+			}
+			return obs
+		}})
+}
